@@ -14,7 +14,7 @@ import (
 	"mcrt"
 )
 
-var x int
+var x, y int
 
 func run(body func()) {
 	mcrt.Run(mcrt.Config{}, mcrt.ChooserFunc(func(int) int { return 0 }), body)
@@ -88,6 +88,26 @@ var scenarios = map[string]func(){
 		x = 2
 		mu.Unlock()
 		d.Recv()
+	},
+	// one side takes the lock, the other does not: the lock orders nothing for the reader
+	"race-mutex-one-side": func() {
+		var mu mcrt.Mutex
+		d := mcrt.Make[int](0, "d")
+		mcrt.Go("a", func() { mu.Lock(); x = 1; mu.Unlock(); d.Send(1) })
+		_ = x
+		d.Recv()
+	},
+	// the unlocked read comes from a third thread that never talks to the writer
+	"race-mutex-third-thread": func() {
+		var mu mcrt.Mutex
+		d := mcrt.Make[int](0, "d")
+		e := mcrt.Make[int](0, "e")
+		mcrt.Go("a", func() { mu.Lock(); x = 1; mu.Unlock(); d.Send(1) })
+		mcrt.Go("b", func() { y = x; e.Send(1) })
+		mu.Lock()
+		mu.Unlock()
+		d.Recv()
+		e.Recv()
 	},
 	"ok-context": func() {
 		ctx, cancel := mcrt.WithCancel(mcrt.Background())
